@@ -21,6 +21,15 @@ var _ types.Type
 func (c *Ctx) intrinsic(st *State, in ssa.Instruction, callee *ssa.Function, args []Value) (Value, bool) {
 	name := callee.String()
 	f, ok := intrinsics[name]
+	if !ok && callee.Synthetic != "" {
+		// promoted method of an embedded sync.Mutex (e.g. (*tScreen).Lock): the wrapper of an intrinsic
+		for _, m := range []string{"Lock", "Unlock"} {
+			if strings.HasSuffix(name, ")."+m) && strings.Contains(callee.Synthetic, "(*sync.Mutex)."+m) {
+				f, ok = intrinsics["(*sync.Mutex)."+m]
+				name = "(*sync.Mutex)." + m
+			}
+		}
+	}
 	if !ok {
 		return nil, false
 	}
